@@ -9,7 +9,8 @@ TRUSTED_BASE = [
     'axioms: none (Print Assumptions reports "Closed under the global context" for every property theorem)',
     'extraction: ExtrOcamlBasic only (Extract Inductive for bool, option, unit, prod, list, sumbool, sumor); N/positive/nat stay inductive; no Extract Constant; OCaml 4.13.1 + zarith for decimal<->N in the driver',
     'correspondence machinery (differential testing, not proof): harness types and instrumentation (harness/src), the read-only snapshot hook (cargo feature verif-hooks), trace generator, ocaml/driver.ml comparison, tools/check.py',
-    'modelled by hand, not verified: all of /repo/src; assumed and only exercised: hashbrown RawTable contract, rustc/std semantics of MaybeUninit, ptr::read, drop order, size_of (a parameter of the model)',
+    'Layer P translator (sigdump --bodies, syn): bodies of 17 pointer functions re-translated from the current source on every run and proved equal to the hand-written Layer B definitions (coq/Gen/BodiesProps.v); trusted to parse and to render the recognised idioms, everything else becomes a faulting Unknown statement or a whitelisted named Opaque',
+    'modelled by hand, not verified: all of /repo/src (Layer P ties the pointer primitives only); assumed and only exercised: hashbrown RawTable contract, rustc/std semantics of MaybeUninit, ptr::read, drop order, size_of (a parameter of the model)',
 ]
 
 ALL_OPS = None
